@@ -399,7 +399,7 @@ std::vector<TableDesc> simplify_desc(const TableDesc &d) {
 // ---------------------------------------------------------------- foreign files
 const std::vector<std::string> &foreign_kinds() {
 	static const std::vector<std::string> k = {"empty_primary", "bintable", "asciitable", "int16_image", "compressed",
-	                                           "float_noext", "double_primary", "garbage", "text", "empty", "short"};
+	                                           "float_noext", "double_primary", "garbage", "text", "empty", "short", "wrapping_shape"};
 	return k;
 }
 
@@ -471,6 +471,30 @@ Bytes foreign_fits(const std::string &kind, uint64_t seed) {
 		std::string s = "SIMPLE text file, not FITS at all\n";
 		size_t n = 100 + r.below(6000);
 		while (out.size() < n) out.insert(out.end(), s.begin(), s.end());
+	} else if (kind == "wrapping_shape") {
+		// a spline file that is consistent in every header and knot vector, whose axis lengths
+		// multiply to a multiple of 2^64: the element count of the coefficient array wraps to 0
+		// (in the reader and in cfitsio's size of the data unit alike), so the file is tiny
+		TableSpec t;
+		static const int shapes[][2] = {{64, 1}, {32, 2}, {16, 4}, {8, 8}, {22, 3}, {13, 5}, {11, 6}};   // {dimensions, log2(axis length)}
+		const int *sh = shapes[r.below(7)];
+		std::vector<uint64_t> ax((size_t)sh[0], (uint64_t)1 << sh[1]);
+		if (r.chance(0.4)) ax.insert(ax.begin() + (long)r.below(ax.size() + 1), 3 + r.below(5));      // an odd factor changes nothing
+		t.ndim = (uint32_t)ax.size();
+		t.naxes = ax;
+		for (uint32_t d = 0; d < t.ndim; d++) {
+			uint32_t o = (uint32_t)r.below(std::min<uint64_t>(ax[d], 4));          // naxes >= order+1
+			t.order.push_back(o);
+			std::vector<double> k(ax[d] + o + 1);
+			double x = r.uniform(-2, 2);
+			for (auto &v : k) { v = x; x += r.chance(0.1) ? 0.0 : r.uniform(0.1, 1.0); }
+			t.knots.push_back(k);
+		}
+		if (r.chance(0.5)) {
+			t.has_extents = true;
+			for (uint32_t d = 0; d < t.ndim; d++) { t.extents.push_back(t.knots[d][t.order[d]]); t.extents.push_back(t.knots[d][t.knots[d].size() - t.order[d] - 1]); }
+		}
+		out = encode_fits(t);
 	} else if (kind == "short") {
 		std::string s = card_logical("SIMPLE", true) + card_int("BITPIX", -32);
 		out.assign(s.begin(), s.end());
